@@ -121,6 +121,10 @@ def path_state(sess, paths):
     return out
 
 
+def fresh_full(case):
+    return case["store"][0] in ("local", "local-lru") and not case.get("live_edit") and not case.get("restrict_producer") and case["nstages"] % 2 == 1
+
+
 def run_history(case, scratch, with_restricted):
     kind, cache = case["store"]
     sess = Session(scratch, kind, cache)
@@ -199,6 +203,8 @@ def run_history(case, scratch, with_restricted):
             v = cur["vars"][case["live_edit"][1]]
             sess.write(cur)
             sess.w.call("call", module="vf.harness.worker", func="cmd_setvar", args=[M.modname(cur, v["mod"]), v["name"], M.dec(v["val"])])
+        if fresh_full(case):
+            sess.restart()   # the later full evaluation is made by another process: it only sees what reached the store
         full = sess.eval(root, "eval")
         out["full"] = full
         out["loads"] = {}
@@ -271,6 +277,15 @@ def check_case(case, ev=None, scratch=None):
             extra = [x for x in a["full"]["log"] if a["full"]["log"].count(x) > b["full"]["log"].count(x)]
             if extra:
                 raise Violation(f"{what}: the later full evaluation re-executed {sorted(set(extra))} although the restricted run had stored them", case)
+            ra = a.get("restricted")
+            if (ra is not None and ra["exc"] is None and not case.get("fail") and not case.get("live_edit") and not case.get("restrict_producer")
+                    and case["history"] != "orphan_blobs" and case["store"][0] != "noop"):
+                # everything kept was computed and stored by the restricted run: the later full evaluation (by the same process or,
+                # for file stores and odd stage counts, by a fresh one) only runs what an evaluation on a complete store runs
+                idle = set(M.sim_log(final_prog, case["root"], lambda p: False))
+                ran = [x for x in a["full"]["log"] if x not in idle]
+                if ran:
+                    raise Violation(f"{what}: the restricted run included the eval stage, yet the later full evaluation ({'fresh process' if fresh_full(case) else 'same process'}) executed the kept functions {sorted(set(ran))} again: their blobs did not reach the store", case)
         if ev is not None:
             sites = M.kept_sites(case["prog"], case["root"])
             ev.case({"stages": spell_stages(case["nstages"], case["spell"]), "history": case["history"], "store": case["store"],
@@ -284,12 +299,99 @@ def check_case(case, ev=None, scratch=None):
             scratch.clean()
 
 
+THREAD_SRC = """import dds
+import threading
+import vlog
+
+VS = {vs}
+
+
+def leaf():
+    vlog.rec('leaf')
+    return ('leaf', VS)
+
+
+def helper(out):
+    out.append(dds.keep('/c15/leaf', leaf))
+
+
+def f():
+    vlog.rec('f')
+    out = []
+    t = threading.Thread(target=helper, args=(out,))
+    t.start()
+    t.join()
+    return ('f', out[0])
+"""
+
+
+def thread_strategy():
+    from hypothesis import strategies as st
+
+    return st.fixed_dictionaries({"thread_keep": st.just(True), "nstages": st.integers(1, 4), "spell": st.sampled_from(["lower", "upper", "enum"]),
+                                  "store": st.sampled_from([["memory", None], ["local", None], ["local-lru", 2]]), "warm": st.booleans()})
+
+
+def check_thread_keep(case, ev=None, scratch=None):
+    """The evaluated function reaches its dds.keep from a worker thread it starts and joins: a restricted evaluation stays a dry
+    run (nothing committed; nothing executed below the eval stage) and the later full evaluation gives the plain result."""
+    from ..harness import proc
+
+    own = scratch is None
+    scratch = scratch or common.Scratch("vf-c15")
+    root_dir, store_dir = scratch.sub(), scratch.sub()
+    w = proc.Worker()
+    n = case["nstages"]
+    stages = spell_stages(n, case["spell"])
+    what = f"[keep reached from a worker thread, stages={stages}, store={case['store'][0]}, warm={case['warm']}]"
+    try:
+        def write(vs):
+            for rel, content in {"pk/__init__.py": "", "pk/m0.py": THREAD_SRC.format(vs=vs)}.items():
+                pth = os.path.join(root_dir, rel)
+                os.makedirs(os.path.dirname(pth), exist_ok=True)
+                open(pth, "w").write(content)
+
+        write(1)
+        w.call("init", root=root_dir, accepted=["pk"], store={"kind": case["store"][0], "dir": store_dir, "cache": case["store"][1]})
+        old = None
+        if case["warm"]:
+            r = w.call("eval", module="pk.m0", func="f", style="eval")
+            if r["exc"] is not None or r["value"] != ("f", ("leaf", 1)):
+                raise Violation(f"{what}: the full evaluation of the first version gave {r['exc'] or r['value']!r}", case)
+            old = ("leaf", 1)
+            w.call("call", module="vf.harness.worker", func="cmd_setvar", args=["pk.m0", "VS", 2])
+        vs = 2 if case["warm"] else 1
+        r = w.call("call", module="vf.props.c15", func="_eval_stages", args=["pk.m0", "f", stages, None])
+        if r["exc"] is not None:
+            raise Violation(f"{what}: restricted evaluation raised {r['exc']['type']}: {r['exc']['msg'][:300]}", case)
+        ld = w.call("load", path="/c15/leaf")
+        now = ld["value"] if ld["exc"] is None else None
+        if now != old or r["synced"]:
+            raise Violation(f"{what}: after an evaluation that did not request the path_commit stage /c15/leaf serves {now!r} (before: {old!r}; path commits seen: {[list(d) for d in r['synced']]})", case)
+        if n < 3 and (r["log"] or r["stored"]):
+            raise Violation(f"{what}: an evaluation restricted below the eval stage executed {r['log']} and stored {len(r['stored'])} blobs", case)
+        r = w.call("eval", module="pk.m0", func="f", style="eval")
+        if r["exc"] is not None or r["value"] != ("f", ("leaf", vs)):
+            raise Violation(f"{what}: the later full evaluation gave {r['exc'] or r['value']!r}, expected {('f', ('leaf', vs))!r}", case)
+        ld = w.call("load", path="/c15/leaf")
+        if ld["exc"] is not None or ld["value"] != ("leaf", vs):
+            raise Violation(f"{what}: after the full evaluation /c15/leaf serves {ld['exc'] or ld['value']!r}", case)
+        if ev is not None:
+            ev.case(case, True, features=["keep-from-worker-thread", f"nstages{n}", "store:" + case["store"][0]])
+    finally:
+        w.close()
+        if own:
+            scratch.clean()
+
+
 def shard(idx, n, tier, seed, count):
     ev = Ev()
     scratch = common.Scratch("vf-c15")
     opts = {"exclude": common.open_features(ID)}
     try:
         v = common.hyp_drive(case_strategy(opts), lambda c: check_case(c, ev, scratch), seed * 1000 + 1500 + idx, count, ev)
+        if v is None and idx % 4 == 0:
+            v = common.hyp_drive(thread_strategy(), lambda c: check_thread_keep(c, ev, scratch), seed * 1000 + 1550 + idx, max(3, count // 6), ev)
     finally:
         scratch.clean()
     return ev, v
@@ -301,4 +403,6 @@ def run(tier, seed, scale=1.0):
 
 
 def replay(case):
+    if case.get("thread_keep"):
+        return check_thread_keep(case)
     check_case(case)
